@@ -62,6 +62,19 @@ def reviewedFresh : List Level := [.viewStruct, .headerArray, .aliasArray, .reco
 def depthProblems (fs : List Fact) : List String :=
   reviewedFresh.flatMap fun l => (levelProblems fs accessor l).map fun p => "the " ++ l.name ++ " of a working copy: " ++ p
 
+/-- A FileInfo COPY installed on a stored view is the defect shape of C05-m18 / C02-m13: Transaction.UncommittedViews keeps
+    the FileInfo that the FIRST change of the transaction registered and COMMIT encodes with that one, so whatever a later
+    statement changes on its private copy (delimiter positions, format, encoding …) is lost at COMMIT.  Offending: a struct
+    copy of a FileInfo inside a data-changing function (or a view method it calls), and an assignment that gives a view
+    another FileInfo anywhere but in CreateTable (whose table is new: nothing is registered yet). -/
+def fileInfoProblems (copies installs : List Write) : List String :=
+  ((copies.filter fun w => w.level == "dml").map fun w =>
+    w.fn ++ " at " ++ w.site ++ ": struct copy " ++ w.target ++ " of a FileInfo inside a data-changing function") ++
+  ((installs.filter fun w => w.fn != "CreateTable").map fun w =>
+    w.fn ++ " at " ++ w.site ++ ": " ++ w.target ++ " is given another FileInfo than the one the transaction has registered")
+
+def currentFileInfo : List String := fileInfoProblems Csvq.Gen.fileInfoCopies Csvq.Gen.fileInfoInstalls
+
 /-- the offending sites of the CURRENT source tree (`[]` = every written level is the copy's own) -/
 def current : List String := sharedWrittenSites Csvq.Gen.copyFacts allDmlEffects Csvq.Gen.dmlWrites
 
